@@ -22,6 +22,9 @@ ASSUMPTIONS = ["E8: pickle of networkx graphs and AEON text round trip (from_aeo
 CASE_TIMEOUT = {"quick": 60, "thorough": 180}
 
 
+RARE_CFG = 0.1     # share of cases run under rarely used option values (same results expected)
+
+
 def budget(tier):
     return 900 if tier == "quick" else 9000
 
